@@ -1,3 +1,4 @@
+import LiquidVerif.Gen.C20Unicode
 /-!
 Model of `liquid/builtin/expressions/_tokenize.py` (`_RE`, `tokenize`) and of the line scanner of
 `liquid/builtin/tags/liquid_tag.py` (`_tokenize_liquid_expression`).
@@ -9,25 +10,32 @@ characters: it returns the characters it matched (`raw`) and the remaining input
 index pair; positions are obtained, as in the implementation, by arithmetic
 (`parent_token.start_index + match.start()`).  That the two agree is `token_span_correct` (Props/C20).
 
-Character classes are Python's `re` classes for `str` patterns, exact for code points below U+0100
-(`\d` = Nd, `\w` = `str.isalnum() or '_'`, `\s` = `str.isspace()`); code points from U+0100 up are
-classified "other" (checked by the `charclass` stream; the generators stay below U+0100).
+Character classes are Python's `re` classes for `str` patterns (the patterns are compiled without
+`re.ASCII`, so they are Unicode-aware): written out below U+0100, and from U+0100 up looked up in the
+range tables `Gen/C20Unicode.lean` dumped from the interpreter's Unicode database; stream `charclass`
+compares them with `re` on every code point.
 -/
 namespace LiquidVerif.ExprLex
 
 /-! ## character classes -/
 
-def isDigit (c : Char) : Bool := '0' ≤ c && c ≤ '9'
+/-- membership in a list of inclusive code-point ranges -/
+def inRanges (rs : List (Nat × Nat)) (n : Nat) : Bool := rs.any fun r => r.1 ≤ n && n ≤ r.2
+
+def isDigit (c : Char) : Bool :=
+  ('0' ≤ c && c ≤ '9') || (0x100 ≤ c.val && inRanges LiquidVerif.Gen.C20Unicode.digitRanges c.val.toNat)
 
 def isWord (c : Char) : Bool :=
   isDigit c || ('a' ≤ c && c ≤ 'z') || ('A' ≤ c && c ≤ 'Z') || c == '_'
   || c.val == 0xAA || c.val == 0xB2 || c.val == 0xB3 || c.val == 0xB5 || c.val == 0xB9 || c.val == 0xBA
   || c.val == 0xBC || c.val == 0xBD || c.val == 0xBE
   || (0xC0 ≤ c.val && c.val ≤ 0xFF && c.val != 0xD7 && c.val != 0xF7)
+  || (0x100 ≤ c.val && inRanges LiquidVerif.Gen.C20Unicode.wordRanges c.val.toNat)
 
-/-- `\s` for `str` patterns -/
+/-- `\s` for `str` patterns (= `str.isspace`) -/
 def isSpace (c : Char) : Bool :=
   c == ' ' || (0x09 ≤ c.val && c.val ≤ 0x0D) || (0x1C ≤ c.val && c.val ≤ 0x1F) || c.val == 0x85 || c.val == 0xA0
+  || (0x100 ≤ c.val && inRanges LiquidVerif.Gen.C20Unicode.spaceRanges c.val.toNat)
 
 /-- the class `[ \n\t\r]` of the SKIP rule -/
 def isSkip (c : Char) : Bool := c == ' ' || c == '\n' || c == '\t' || c == '\r'
